@@ -36,8 +36,8 @@ func calleeName(c ssa.CallInstruction) string {
 	return ""
 }
 
-// allInstrs iterates the instructions of fn (optionally including nested closures).
-func allInstrs(fn *ssa.Function, withAnon bool, visit func(f *ssa.Function, b *ssa.BasicBlock, i int, ins ssa.Instruction)) {
+// allInstrsLocal iterates the instructions of fn (optionally including nested closures).
+func allInstrsLocal(fn *ssa.Function, withAnon bool, visit func(f *ssa.Function, b *ssa.BasicBlock, i int, ins ssa.Instruction)) {
 	if fn == nil {
 		return
 	}
@@ -48,8 +48,23 @@ func allInstrs(fn *ssa.Function, withAnon bool, visit func(f *ssa.Function, b *s
 	}
 	if withAnon {
 		for _, a := range fn.AnonFuncs {
-			allInstrs(a, true, visit)
+			allInstrsLocal(a, true, visit)
 		}
+	}
+}
+
+// allInstrs iterates the instructions of fn and of the new functions it calls (see
+// inline.go): code that was moved into a helper is still code of fn.
+func allInstrs(fn *ssa.Function, withAnon bool, visit func(f *ssa.Function, b *ssa.BasicBlock, i int, ins ssa.Instruction)) {
+	if fn == nil {
+		return
+	}
+	if curWorld == nil || !curWorld.base.loaded {
+		allInstrsLocal(fn, withAnon, visit)
+		return
+	}
+	for i, f := range curWorld.regionFns(fn) {
+		allInstrsLocal(f, withAnon || i > 0, visit)
 	}
 }
 
@@ -57,8 +72,18 @@ func allInstrs(fn *ssa.Function, withAnon bool, visit func(f *ssa.Function, b *s
 // through an interface matches by the interface method's name, or when EVERY gleece
 // implementation of that method satisfies pred (must-style: the call certainly is one).
 func callsIn(fn *ssa.Function, withAnon bool, pred func(name string) bool) []ssa.CallInstruction {
+	return callsInVia(allInstrs, fn, withAnon, pred)
+}
+
+// callsInLocal: like callsIn but confined to fn's own body (path rules, which reason about
+// fn's own control-flow graph).
+func callsInLocal(fn *ssa.Function, withAnon bool, pred func(name string) bool) []ssa.CallInstruction {
+	return callsInVia(allInstrsLocal, fn, withAnon, pred)
+}
+
+func callsInVia(iter func(*ssa.Function, bool, func(*ssa.Function, *ssa.BasicBlock, int, ssa.Instruction)), fn *ssa.Function, withAnon bool, pred func(name string) bool) []ssa.CallInstruction {
 	var out []ssa.CallInstruction
-	allInstrs(fn, withAnon, func(_ *ssa.Function, _ *ssa.BasicBlock, _ int, ins ssa.Instruction) {
+	iter(fn, withAnon, func(_ *ssa.Function, _ *ssa.BasicBlock, _ int, ins ssa.Instruction) {
 		if c, ok := ins.(ssa.CallInstruction); ok {
 			if pred(calleeName(c)) {
 				out = append(out, c)
@@ -156,6 +181,51 @@ type edgeFact struct {
 // for every If whose successor edge dominates b. (An edge P->S dominates b iff
 // S dominates b and S's only predecessor is P.)
 func dominatingFacts(b *ssa.BasicBlock) []edgeFact {
+	out := localFacts(b)
+	if curWorld != nil && curWorld.isNewFn(b.Parent()) {
+		out = append(out, curWorld.callerFacts(b.Parent(), 0)...)
+	}
+	return out
+}
+
+// callerFacts: the branch facts that hold at every call site of a new function.
+func (w *World) callerFacts(fn *ssa.Function, depth int) []edgeFact {
+	if depth > 6 {
+		return nil
+	}
+	sites := w.callSitesOfNew(fn)
+	if len(sites) == 0 {
+		return nil
+	}
+	factsAt := func(c ssa.CallInstruction) []edgeFact {
+		fs := localFacts(c.Block())
+		if w.isNewFn(c.Parent()) {
+			fs = append(fs, w.callerFacts(c.Parent(), depth+1)...)
+		}
+		return fs
+	}
+	common := factsAt(sites[0])
+	for _, c := range sites[1:] {
+		type ck struct {
+			v   ssa.Value
+			pol bool
+		}
+		have := map[ck]bool{}
+		for _, f := range factsAt(c) {
+			have[ck{f.Cond, f.Pol}] = true
+		}
+		var keep []edgeFact
+		for _, f := range common {
+			if have[ck{f.Cond, f.Pol}] {
+				keep = append(keep, f)
+			}
+		}
+		common = keep
+	}
+	return common
+}
+
+func localFacts(b *ssa.BasicBlock) []edgeFact {
 	var out []edgeFact
 	for x := b; x != nil; x = x.Idom() {
 		if len(x.Preds) != 1 {
@@ -212,8 +282,35 @@ func knownNil(v ssa.Value, b *ssa.BasicBlock) bool {
 	return false
 }
 
+var nonNilBusy = map[*ssa.Parameter]bool{}
+
 // knownNonNil reports whether v is known to be non-nil on entry to block b.
 func knownNonNil(v ssa.Value, b *ssa.BasicBlock) bool {
+	if p, ok := v.(*ssa.Parameter); ok && curWorld != nil && curWorld.isNewFn(p.Parent()) && p.Parent().Parent() == nil {
+		// a parameter of a new function: non-nil when every call site passes a non-nil value
+		idx := -1
+		for i, q := range p.Parent().Params {
+			if q == p {
+				idx = i
+			}
+		}
+		sites := curWorld.callSitesOfNew(p.Parent())
+		if idx >= 0 && len(sites) > 0 && !nonNilBusy[p] {
+			nonNilBusy[p] = true
+			all := true
+			for _, c := range sites {
+				args := c.Common().Args
+				if idx >= len(args) || !(knownNonNil(args[idx], c.Block()) || provablyNonNil(args[idx], c.Block())) {
+					all = false
+					break
+				}
+			}
+			delete(nonNilBusy, p)
+			if all {
+				return true
+			}
+		}
+	}
 	for _, f := range dominatingFacts(b) {
 		c, pol := unwrapNot(f.Cond, f.Pol)
 		if bo, ok := c.(*ssa.BinOp); ok {
@@ -645,11 +742,20 @@ func collectCondEdges(cond ssa.Value, wantTrue bool, out *[]edge, seen map[ssa.V
 // which some call matching pred returned a good result. Returns the call sites found,
 // and a violation text ("" if the obligation holds).
 func (w *World) mustPassOK(fn *ssa.Function, pred func(string) bool, resultIdx int, what string) (sites []string, violation string) {
-	calls := callsIn(fn, false, pred)
-	if len(calls) == 0 {
+	calls := callsInLocal(fn, false, pred)
+	// a new function that itself only succeeds after a good call stands for that call
+	var viaHelper []ssa.CallInstruction
+	for _, hc := range w.newHelperCalls(fn) {
+		h := w.newCallee(hc)
+		if w.summary(sumKey{namedOf(h), "ok", what, resultIdx}, func() bool { _, v := w.mustPassOK(h, pred, resultIdx, what); return v == "" }) {
+			viaHelper = append(viaHelper, hc)
+		}
+	}
+	if len(calls)+len(viaHelper) == 0 {
 		return nil, fmt.Sprintf("%s: no call to %s found in %s", w.pos(fn.Pos()), what, short(fn.String()))
 	}
 	avoid := map[edge]bool{}
+	passed := map[*ssa.BasicBlock]bool{}
 	for _, c := range calls {
 		sites = append(sites, w.pos(c.Pos()))
 		es := okEdgesOfCall(c, resultIdx)
@@ -657,7 +763,25 @@ func (w *World) mustPassOK(fn *ssa.Function, pred func(string) bool, resultIdx i
 			avoid[e] = true
 		}
 	}
-	if len(avoid) == 0 {
+	isHelper := map[ssa.CallInstruction]bool{}
+	for _, c := range viaHelper {
+		isHelper[c] = true
+		sites = append(sites, w.pos(c.Pos()))
+		if errResultIndex(w.newCallee(c)) >= 0 {
+			for _, e := range okEdgesOfCall(c, -1) {
+				avoid[e] = true
+			}
+		} else {
+			// no verdict to test: having returned from it is having passed the good call
+			passed[c.Block()] = true
+			for _, s := range c.Block().Succs {
+				avoid[edge{c.Block(), s}] = true
+			}
+		}
+	}
+	predExt := func(c ssa.CallInstruction) bool { return pred(calleeName(c)) || isHelper[c] }
+	_ = predExt
+	if len(avoid) == 0 && len(passed) == 0 {
 		// pure delegation: every non-failing exit hands the callee's own verdict to the caller
 		allDelegated := true
 		n := 0
@@ -666,7 +790,7 @@ func (w *World) mustPassOK(fn *ssa.Function, pred func(string) bool, resultIdx i
 				continue
 			}
 			n++
-			if !(ex.Kind == exitUnknown && ex.Delegate != nil && pred(calleeName(ex.Delegate))) {
+			if !(ex.Kind == exitUnknown && ex.Delegate != nil && predExt(ex.Delegate)) {
 				allDelegated = false
 			}
 		}
@@ -680,14 +804,14 @@ func (w *World) mustPassOK(fn *ssa.Function, pred func(string) bool, resultIdx i
 		if ex.Kind == exitFailure || ex.Kind == exitPanic {
 			continue
 		}
-		if ex.Kind == exitUnknown && ex.Delegate != nil && pred(calleeName(ex.Delegate)) {
+		if ex.Kind == exitUnknown && ex.Delegate != nil && predExt(ex.Delegate) {
 			continue // the caller receives the callee's own verdict
 		}
 		bad := false
 		if ex.Pred != nil {
 			bad = reach[ex.Pred] && used[edge{ex.Pred, ex.Block}]
 		} else {
-			bad = reach[ex.Block]
+			bad = reach[ex.Block] && !passed[ex.Block]
 		}
 		if bad {
 			return sites, fmt.Sprintf("%s: success return of %s is reachable without a successful %s", w.pos(retPos(ex)), short(fn.String()), what)
@@ -720,7 +844,13 @@ func retPos(ex fnExit) token.Pos {
 // mustPassBlock checks that every success exit passes through a block containing a
 // call matching pred (result not necessarily tested).
 func (w *World) mustPassCall(fn *ssa.Function, pred func(string) bool, what string) (sites []string, violation string) {
-	calls := callsIn(fn, false, pred)
+	calls := callsInLocal(fn, false, pred)
+	for _, hc := range w.newHelperCalls(fn) {
+		h := w.newCallee(hc)
+		if w.summary(sumKey{namedOf(h), "call", what, 0}, func() bool { _, v := w.mustPassCall(h, pred, what); return v == "" }) {
+			calls = append(calls, hc)
+		}
+	}
 	if len(calls) == 0 {
 		return nil, fmt.Sprintf("%s: no call to %s found in %s", w.pos(fn.Pos()), what, short(fn.String()))
 	}
@@ -747,11 +877,36 @@ func (w *World) mustPassCall(fn *ssa.Function, pred func(string) bool, what stri
 	return sites, ""
 }
 
+var errPropBusy = map[*ssa.Function]bool{}
+
 // errPropagates checks that whenever a call matching pred fails (error non-nil / ok
 // false), every way onward leaves fn through a failure exit: the error is never
 // swallowed. Returns inspected sites and a violation text.
 func (w *World) errPropagates(fn *ssa.Function, pred func(string) bool, resultIdx int, what string) (sites []string, violation string) {
-	calls := callsIn(fn, false, pred)
+	calls := callsInLocal(fn, false, pred)
+	idxOf := map[ssa.CallInstruction]int{}
+	// a new function that contains such a call must hand the failure on itself, and its own
+	// failure must not be swallowed here
+	for _, hc := range w.newHelperCalls(fn) {
+		h := w.newCallee(hc)
+		if !w.regionHasCall(h, pred) || errPropBusy[namedOf(h)] {
+			continue
+		}
+		errPropBusy[namedOf(h)] = true
+		_, v := w.errPropagates(h, pred, resultIdx, what)
+		delete(errPropBusy, namedOf(h))
+		if v != "" {
+			if strings.Contains(v, "no call to") {
+				continue // the call sits in a deeper helper that h does not reach through an error path of its own
+			}
+			return []string{w.pos(hc.Pos())}, v
+		}
+		if errResultIndex(h) < 0 {
+			return []string{w.pos(hc.Pos())}, fmt.Sprintf("%s: %s fails inside %s, which has no error result to report it with", w.pos(hc.Pos()), what, fnShort(h))
+		}
+		calls = append(calls, hc)
+		idxOf[hc] = -1
+	}
 	if len(calls) == 0 {
 		return nil, fmt.Sprintf("%s: no call to %s found in %s", w.pos(fn.Pos()), what, short(fn.String()))
 	}
@@ -761,7 +916,11 @@ func (w *World) errPropagates(fn *ssa.Function, pred func(string) bool, resultId
 	}
 	for _, c := range calls {
 		sites = append(sites, w.pos(c.Pos()))
-		oks := okEdgesOfCall(c, resultIdx)
+		ri := resultIdx
+		if v, ok := idxOf[c]; ok {
+			ri = v
+		}
+		oks := okEdgesOfCall(c, ri)
 		if len(oks) == 0 {
 			return sites, fmt.Sprintf("%s: the result of %s is never tested", w.pos(c.Pos()), what)
 		}
@@ -882,7 +1041,32 @@ func backSlice(v ssa.Value, atoms *sliceAtoms, seen map[ssa.Value]bool, depth in
 			atoms.Consts = append(atoms.Consts, "nil")
 		}
 	case *ssa.Parameter:
+		if curWorld != nil && x.Parent().Parent() == nil && curWorld.isNewFn(x.Parent()) {
+			// parameter of a new function: the arguments of its call sites
+			idx := -1
+			for i, q := range x.Parent().Params {
+				if q == x {
+					idx = i
+				}
+			}
+			if sites := curWorld.callSitesOfNew(x.Parent()); idx >= 0 && len(sites) > 0 {
+				for _, c := range sites {
+					if args := c.Common().Args; idx < len(args) {
+						backSlice(args[idx], atoms, seen, depth+1)
+					}
+				}
+				return
+			}
+		}
 		atoms.Params[x] = true
+	case *ssa.Extract:
+		if call, ok := x.Tuple.(*ssa.Call); ok && curWorld != nil {
+			if callee := curWorld.newCallee(call); callee != nil {
+				sliceResults(callee, x.Index, atoms, seen, depth)
+				return
+			}
+		}
+		backSlice(x.Tuple, atoms, seen, depth+1)
 	case *ssa.FreeVar:
 		atoms.FreeVars[x] = true
 	case *ssa.Global:
@@ -906,6 +1090,14 @@ func backSlice(v ssa.Value, atoms *sliceAtoms, seen map[ssa.Value]bool, depth in
 			backSlice(sv, atoms, seen, depth+1)
 		}
 	case *ssa.Call:
+		if curWorld != nil {
+			if callee := curWorld.newCallee(x); callee != nil {
+				// a new function: looked through (its results, with parameters bound to the
+				// arguments of its call sites), not recorded as a call
+				sliceResults(callee, -1, atoms, seen, depth)
+				return
+			}
+		}
 		n := calleeName(x)
 		if n != "" {
 			atoms.Calls[n] = true
@@ -924,6 +1116,25 @@ func backSlice(v ssa.Value, atoms *sliceAtoms, seen map[ssa.Value]bool, depth in
 				if *op != nil {
 					backSlice(*op, atoms, seen, depth+1)
 				}
+			}
+		}
+	}
+}
+
+// sliceResults continues a backward slice in the returned values (all, or result idx) of
+// a new function.
+func sliceResults(callee *ssa.Function, idx int, atoms *sliceAtoms, seen map[ssa.Value]bool, depth int) {
+	for _, b := range callee.Blocks {
+		if len(b.Instrs) == 0 {
+			continue
+		}
+		ret, ok := b.Instrs[len(b.Instrs)-1].(*ssa.Return)
+		if !ok {
+			continue
+		}
+		for i, r := range ret.Results {
+			if idx < 0 || i == idx {
+				backSlice(r, atoms, seen, depth+1)
 			}
 		}
 	}
@@ -954,6 +1165,17 @@ func storedInto(addr ssa.Value, depth int) []ssa.Value {
 		case *ssa.MapUpdate:
 			if x.Map == addr {
 				out = append(out, x.Key, x.Value)
+			}
+		case ssa.CallInstruction:
+			// handed to a new function: what that function stores through its parameter
+			if curWorld != nil {
+				if callee := curWorld.newCallee(x); callee != nil {
+					for i, a := range x.Common().Args {
+						if a == addr && i < len(callee.Params) {
+							out = append(out, storedInto(callee.Params[i], depth+1)...)
+						}
+					}
+				}
 			}
 		}
 	}
@@ -1032,7 +1254,18 @@ func enclosingNamed(fn *ssa.Function) *ssa.Function {
 	return fn
 }
 
+// fnShort names the function a site is attributed to: the function itself, or - for a
+// function the reviewed tree did not have - the reviewed function(s) it is reached from
+// (joined by "|"), see inline.go.
 func fnShort(fn *ssa.Function) string {
+	if curWorld != nil && curWorld.base.loaded && curWorld.isNewFn(fn) {
+		return curWorld.hostName(fn)
+	}
+	return fnReal(fn)
+}
+
+// fnReal: the declared name of the (enclosing named) function.
+func fnReal(fn *ssa.Function) string {
 	fn = enclosingNamed(fn)
 	if fn.Origin() != nil {
 		fn = fn.Origin()
